@@ -327,7 +327,10 @@ def keep_drop(repo, chk):
         'distinct': [E(f'len({uniq}[0]) > 1'), E(f'len(numpy.unique({Asrc})) > 1'), E(f'{uniq}[0].size > 1'), E(f'len({uniq}[0]) >= 2'), E(f'numpy.unique({Asrc}).size > 1')],
         'majority': [E(f'numpy.divide(numpy.max({uniq}[1]), numpy.sum({uniq}[1])) < 0.8'), E(f'numpy.max({uniq}[1]) / numpy.sum({uniq}[1]) < 0.8'), E(f'numpy.max({uniq}[1]) / len({Asrc}) < 0.8'),
                      E(f'{uniq}[1].max() / {uniq}[1].sum() < 0.8'), E(f'numpy.max({uniq}[1]) / {uniq}[1].sum() < 0.8')],
-        'nan': [E(f"numpy.count_nonzero({Asrc} == 'nan') / len({Asrc}) < 0.75"), E(f"numpy.sum({Asrc} == 'nan') / len({Asrc}) < 0.75"), E(f"numpy.mean({Asrc} == 'nan') < 0.75")],
+        'nan': [E(f"numpy.count_nonzero({Asrc} == 'nan') / len({Asrc}) < 0.75"), E(f"numpy.sum({Asrc} == 'nan') / len({Asrc}) < 0.75"), E(f"numpy.mean({Asrc} == 'nan') < 0.75"),
+                # the count of 'nan' read from the (values, counts) of np.unique: the counts at the positions where the value is 'nan'
+                E(f"{uniq}[1][{uniq}[0] == 'nan'].sum() / len({Asrc}) < 0.75"), E(f"numpy.sum({uniq}[1][{uniq}[0] == 'nan']) / len({Asrc}) < 0.75"),
+                E(f"{uniq}[1][{uniq}[0] == 'nan'].sum() / numpy.sum({uniq}[1]) < 0.75"), E(f"{uniq}[1][{uniq}[0] == 'nan'].sum() / {uniq}[1].sum() < 0.75")],
     }
 
     def classify(t_ast, v):
@@ -445,6 +448,13 @@ def numeric_parse(repo, chk):
     m = fn.module
     comps = [n for n in own_nodes(fn.node) if isinstance(n, ast.ListComp) and any(isinstance(c, ast.Call) and isinstance(c.func, ast.Name) and c.func.id == 'float' for c in ast.walk(n))]
     if len(comps) != 1:
+        # found and different: a tolerant parser in the place of float() - pd.to_numeric(errors='coerce') / Series.astype(float) after a replace
+        tol = [c for c in own_nodes(fn.node) if isinstance(c, ast.Call) and (m.dotted(c.func) or '') == 'pandas.to_numeric' and any(k.arg == 'errors' and isinstance(k.value, ast.Constant) and k.value.value in ('coerce', 'ignore') for k in c.keywords)]
+        if tol:
+            chk.bad('C12.3', 'R15', fn.site(tol[0]), ast.unparse(tol[0])[:100], "the cells are parsed with pd.to_numeric(errors='coerce') instead of float(): every cell the two read differently changes the column - "
+                    "'nan' / unparseable text becomes the fill value (0) instead of NaN / an error, '1_000' is rejected, long decimals are rounded differently - so the transformations are evaluated on other numbers than "
+                    "'' -> 0.0, else float(x)")
+            return
         chk.unsure('C12.3', 'R15', fn.site(), '[0.0 if len(x) == 0 else float(x) for x in values]', 'numeric parse comprehension not found')
         return
     lc = comps[0]
